@@ -115,7 +115,9 @@ def run_variant(args):
                 else:
                     notes.append('%s: caught by %s' % (pid, sorted(set(r for r, _, _ in viols))))
             else:
-                if st != 'ok':
+                if st == 'analysis-error' and v.get('gap_ok'):
+                    notes.append('%s: analysis gap, as documented for this refactoring' % pid)
+                elif st != 'ok':
                     ok = False
                     notes.append('%s: twin raised %s %s' % (pid, st, viols[:3]))
         return {'id': v['id'], 'status': 'ok' if ok else 'FAIL', 'kind': v['kind'], 'detail': '; '.join(notes)}
@@ -139,6 +141,12 @@ def patch_variants():
             declined = json.load(f)
     except (IOError, ValueError):
         pass
+    expected_gap = {}
+    try:
+        with open(os.path.join(HERE, 'twins', 'EXPECTED_ANALYSIS_ERROR.json')) as f:
+            expected_gap = json.load(f)
+    except (IOError, ValueError):
+        pass
     for kind, d in (('break', sd), ('twin', os.path.join(HERE, 'twins'))):
         if not os.path.isdir(d):
             continue
@@ -150,6 +158,7 @@ def patch_variants():
             with open(mp) as f:
                 meta = json.load(f)
             out.append({'id': ('seed:' if kind == 'break' else 'twin:') + name, 'kind': kind, 'rule': None, 'patch': pp,
+                        'gap_ok': kind == 'twin' and name in expected_gap,
                         'edits': [], 'props': [meta['property']] if kind == 'break' else list(ALL_PROPS)})
     return out
 
